@@ -76,7 +76,7 @@ class RBinding(arrayhist.Binding):
 
     def make_session(self, cfgi, m, path=None):
         cfg = self.configs[cfgi % len(self.configs)]
-        return RaggedMetaSess(cfg, metaset=cfgi // 3, keyset=cfgi // 5)
+        return RaggedMetaSess(cfg, metaset=cfgi, keyset=cfgi // 5)
 
     def before(self, sess, m):
         return None
